@@ -24,6 +24,13 @@ SHAPES = {
     "D3x": [("d1", "x"), ("d2", "x"), ("y",)],
     # a direct child named like the content root itself
     "D3n": [("top",), ("a",), ("d", "b")],
+    # a directory whose only file is named like the directory (ambiguous
+    # with a single-file torrent in a v2-only metafile, not in v1 / hybrid)
+    "D1n": [("top",)],
+    # a real top-level directory called .pad (the name padding entries use)
+    "D3p": [(".pad", "x"), ("a",), (".pad", "y")],
+    # names containing a backslash (an ordinary character on POSIX)
+    "D3b": [("back\\slash",), ("d\\e", "f"), ("z",)],
     # a decomposed (NFD) name with a sibling that sorts between the
     # decomposed and the composed spelling: 65 CC 81 < 68 < C3 A9
     "D3d": [("e\u0301te\u0301.bin",), ("hiver.bin",), ("z", "e\u0301")],
